@@ -16,7 +16,10 @@ def mon(h, obs):
 
 register(PropSpec(
     "C06",
-    engines=[EngineSpec("exec", gen, mon, mon_exec.tags_c04, quick_n=250, thorough_n=6000, mask=mon_exec.mask_unmodelled)],
+    engines=[EngineSpec("exec", gen, mon, mon_exec.tags_c04, quick_n=250, thorough_n=6000, mask=mon_exec.mask_unmodelled,
+                        hyp_alarm={"listedfinal=1": ("C06/final-record-listed-when-the-timeout-step-runs",
+                                                     "the model (which agrees with the node on this history) reaches a block whose timeout step finds a SUCCESS / FAILURE / "
+                                                     "ROLLBACK record on the list of that height: the hypothesis of C04_block_final_stays fails and the step overwrites the final status")})],
     rule="exec engine: requests with timeouts 0/1/2/3/4/10/huge/negative, receipts before/at/after H+T, several requests sharing a deadline, "
          "restarts; a quarter of the histories carry one-to-many groups (children begun in different blocks, begin-failed and failed groups, group deadlines): a group is listed as timed out only in its deadline block and only if it has neither failed nor finished; per block the TimeoutCounter and per id the status are compared with the protocol; non-trivial = a timeout fired or a status edge was seen",
 ))
